@@ -70,4 +70,15 @@ Crc5Table == LET regs == Crc5Level(11) IN [v \in 0..2047 |-> ValLSB(Invert(regs[
 TabCrc5(v11) == Crc5Table[v11]
 \* the table agrees with the definition (spot-checked by TLC on every run that uses it)
 Crc5TableOk == \A v \in {0, 1, 2, 1024, 1365, 682, 2047, 1289, 640, 77} : Crc5Table[v] = Usb3Crc5(v)
+-----------------------------------------------------------------------------
+(* CRC-32 of a long payload.  CRC.tla's Usb3Crc32Bytes first expands the payload into one bit sequence; TLC's  *)
+(* cost for that grows quadratically (1 KiB takes minutes).  Crc32Stream is the same bit-serial definition --  *)
+(* the same CrcShift steps, register preloaded with ones, result inverted, first sent bit first -- taken one   *)
+(* byte (8 bits, LSB first) at a time; Crc32StreamOk spot-checks the two against each other.                   *)
+RECURSIVE Crc32RegFrom(_, _, _, _)
+Crc32RegFrom(reg, bytes, k, n) ==
+    IF k > n THEN reg ELSE Crc32RegFrom(CrcRun(reg, BitsLSB(bytes[k], 8), Poly32), bytes, k + 1, n)
+Crc32Stream(bytes) == BitsToBytes(Invert(Crc32RegFrom(Ones(32), bytes, 1, Len(bytes))))
+Crc32StreamOk == \A b \in {<<>>, <<255>>, <<1, 2, 3>>, <<170, 187, 152, 44>>, <<0, 5, 30, 0, 0, 0, 0, 0, 9>>} :
+                    Crc32Stream(b) = Usb3Crc32Bytes(b)
 =============================================================================
